@@ -85,6 +85,7 @@ type jEvent struct {
 	Bytes []int  `json:"bytes"`
 }
 type jCase struct {
+	Toml   string   `json:"toml"` // when set: the configuration is what the real ParseData makes of this text
 	Cfg    jCfg     `json:"cfg"`
 	Abs    []jAbs   `json:"abs"`
 	Events []jEvent `json:"events"`
@@ -107,6 +108,7 @@ type jResult struct {
 	Panic   string  `json:"panic"`
 	PanicAt int     `json:"panic_at"`
 	Hang    bool    `json:"hang"`
+	Rejected string `json:"rejected"` // ParseData error for toml-sourced cases
 }
 
 func bitsToFloat(s string) float64 {
@@ -264,6 +266,21 @@ func runCase(c jCase) jResult {
 	startLogDrain()
 	res := jResult{Steps: []jStep{}, Cleanup: [][]int{}, PanicAt: -1}
 	cfg := buildConfig(c.Cfg)
+	if c.Toml != "" {
+		var perr error
+		func() {
+			defer func() {
+				if r := recover(); r != nil {
+					perr = fmt.Errorf("ParseData panicked: %v", r)
+				}
+			}()
+			cfg, perr = config.ParseData([]byte(c.Toml))
+		}()
+		if perr != nil {
+			res.Rejected = perr.Error()
+			return res
+		}
+	}
 	midiOut := make(chan midi.Event, 8192)
 	midiIn := make(chan midi.Event)
 	sigs := make(chan os.Signal, 64)
